@@ -130,6 +130,8 @@ Record case := { c_cfg : cfg; c_viapk : bool; c_spar : list N; c_payload : N; c_
                  c_prim : option prim;
                  (* the recorded WrapKey calls of the pack (JWE packers; None: not recorded) *)
                  c_wraps : option (list wobs);
+                 (* per unpacking party (same order as c_unp): the recorded UnwrapKey calls of its Unpack (None: not recorded) *)
+                 c_att : list (option (list attempt));
                  c_packed : bool; c_unp : list (list N * uobs) }.
 
 (* randomness names outside the harness's key names (ephemeral keys are key names too) *)
@@ -161,6 +163,8 @@ Definition check_case (c : case) : bool :=
   | Ok w =>
       c_packed c &&
       match c_wraps c with Some l => wobs_list_eqb l (wraps_of w) | None => true end &&
+      forallb (fun pa => match snd pa with Some l => attempts_eqb l (attempts Fixed (fst (fst pa)) w) | None => true end)
+              (combine (c_unp c) (c_att c)) &&
       forallb (fun po => uobs_eqb (snd po)
                  (proj (if c_viapk c then unpack_pkgr Fixed (fst po) w
                         else unpack Fixed (packer_of (c_cfg c)) (fst po) w))) (c_unp c)
